@@ -554,11 +554,11 @@ func (u *Unit) appendOp(st *State, args []Val, st0, st1 types.Type) Val {
 		m := u.heapGet(st, name, sort)
 		fresh := u.ctx.FreshConst("app_arr", ArrSort(SInt, sort))
 		i := &Term{"i!q", SInt}
-		srcOld := Select(Select(m, sarr(s)), Add(soff(s), i))
+		srcOld := Select(Select(m, sarr(s)), Eidx(soff(s), i))
 		ax1 := Forall([]Binder{{"i!q", SInt}}, Implies(And(Le(IntLit(0), i), Lt(i, slen(s))), Eq(Select(fresh, i), srcOld)), Select(fresh, i))
 		u.assume(st, ax1)
 		if !isStr {
-			srcNew := Select(Select(m, sarr(add)), Add(soff(add), Sub(i, slen(s))))
+			srcNew := Select(Select(m, sarr(add)), Eidx(soff(add), Sub(i, slen(s))))
 			ax2 := Forall([]Binder{{"i!q", SInt}}, Implies(And(Le(slen(s), i), Lt(i, n)), Eq(Select(fresh, i), srcNew)), Select(fresh, i))
 			u.assume(st, ax2)
 		}
